@@ -30,6 +30,8 @@ structure DoOp where
   args : Option NewArgs
   reply : Bytes
   writeFails : Bool
+  /-- the caller's context is cancelled before the call -/
+  preCancel : Bool := false
   script : List Ev
 
 def tokReq (s : String) : Option (UInt16 × NewArgs) :=
@@ -46,12 +48,14 @@ def parseDoOp (ts : List String) : Option DoOp :=
     let evs := if script == "-" then [] else script.splitOn ";"
     let writeFails := evs.head? == some "w"
     let evs := if writeFails then evs.drop 1 else evs
+    let preCancel := evs.head? == some "pc"
+    let evs := if preCancel then evs.drop 1 else evs
     let script ← evs.mapM tokEv
     let nc := req.startsWith "nc:"
     let reqS := if nc then (req.drop 3).toString else req
     let (tid, args) ← if reqS == "nil" then some ((0 : UInt16), none) else (tokReq reqS).map fun (t, a) => (t, some a)
     pure { kind, hooks := ← tokBool hooks, flusher, nilReq := reqS == "nil", notConnected := nc, tid, args,
-           reply := ← unhex reply, writeFails, script }
+           reply := ← unhex reply, writeFails, preCancel, script }
   | _ => none
 
 def cerrStr : CErr → String
@@ -96,8 +100,10 @@ def DoOp.modelOut (op : DoOp) : String :=
   match op.request with
   | none => "NOREQ"
   | some (_, bytes, expected) =>
-    let (o1, l1) := doExchange op.kind op.flusher true bytes expected op.writeFails op.script
-    let (o2, _) := doExchange op.kind op.flusher false bytes expected op.writeFails op.script
+    let (o1, l1) := if op.preCancel then doExchangeCancelled op.kind op.flusher true bytes op.writeFails
+      else doExchange op.kind op.flusher true bytes expected op.writeFails op.script
+    let (o2, _) := if op.preCancel then doExchangeCancelled op.kind op.flusher false bytes op.writeFails
+      else doExchange op.kind op.flusher false bytes expected op.writeFails op.script
     let served := l1.filter fun e => match e with
       | .afterRead .. => true
       | .stall => true
@@ -191,6 +197,7 @@ def judgeC08 (op : DoOp) (out : String) : Expect :=
   | none => .free
   | some (_, _, expected) =>
     if op.writeFails then .pred (o.startsWith "err client:") "a rejected write must be reported as a client error" else
+    if op.preCancel then .pred (o == "err ctx") "a call made with a cancelled context must return the context's error, never success" else
     let got := dataOf op.script
     -- the complete reply is available at some read boundary: the call may legitimately succeed there
     let boundaries := (op.script.foldl (fun (acc : List Nat × Nat) e =>
